@@ -62,15 +62,15 @@ type tgt struct {
 }
 
 type c19 struct {
-	c      *core.Ctx
-	lim    limiter
-	curSp  string
-	curTg  string
-	curIn  []byte
-	xcheck bool
-	xEvery uint64 // upstream is consulted on one case in xEvery (it decides nothing)
-	hashEvery int // sampled spaces: one accepted case in hashEvery is hashed into the distinct count
-	seq    uint64
+	c         *core.Ctx
+	lim       limiter
+	curSp     string
+	curTg     string
+	curIn     []byte
+	xcheck    bool
+	xEvery    uint64 // upstream is consulted on one case in xEvery (it decides nothing)
+	hashEvery int    // sampled spaces: one accepted case in hashEvery is hashed into the distinct count
+	seq       uint64
 }
 
 func (k *c19) one(space string, t *tgt, in []byte, x bool) bool {
